@@ -78,7 +78,12 @@ func poolMode(args []string) {
 		case 0:
 			appendOp(o, r)
 		case 1, 2:
-			poolOp(o, r, idx)
+			if !poolOp(o, r, idx) {
+				// a Get that never returns: every further blocking sequence
+				// would wait out the same limit
+				o.Count("pool_ops_skipped_after_hang")
+				return
+			}
 		default:
 			leafOp(o, r)
 		}
@@ -120,7 +125,7 @@ func appendOp(o *hxlib.Out, r *hxlib.Rng) {
 // poolOp: batches arriving at a real TriplePool and Get calls; a Get that
 // finds too few words blocks in its own goroutine while the following
 // batches arrive.
-func poolOp(o *hxlib.Out, r *hxlib.Rng, idx int) {
+func poolOp(o *hxlib.Out, r *hxlib.Rng, idx int) bool {
 	pool := gmw.NewTriplePool()
 	dst := new(gmw.Triples)
 	var evs, outs []string
@@ -197,15 +202,27 @@ func poolOp(o *hxlib.Out, r *hxlib.Rng, idx int) {
 			}
 		case 'C':
 			if pending != nil {
-				<-pending
-				finish()
+				select {
+				case <-pending:
+					finish()
+				case <-time.After(5 * time.Minute):
+					o.Fail("c10-pool-get-hang", map[string]any{"case": idx, "events": strings.Join(evs, ",")})
+					o.Op("c10 pool "+strings.Join(evs, ","), "hang")
+					return false
+				}
 			}
 			evs = append(evs, "C")
 			dst.Clear()
 		case 'G':
 			if pending != nil {
-				<-pending
-				finish()
+				select {
+				case <-pending:
+					finish()
+				case <-time.After(5 * time.Minute):
+					o.Fail("c10-pool-get-hang", map[string]any{"case": idx, "events": strings.Join(evs, ",")})
+					o.Op("c10 pool "+strings.Join(evs, ","), "hang")
+					return false
+				}
 			}
 			evs = append(evs, fmt.Sprintf("G%d", e.count))
 			pendingCount = e.count
@@ -230,16 +247,17 @@ func poolOp(o *hxlib.Out, r *hxlib.Rng, idx int) {
 		select {
 		case <-pending:
 			finish()
-		case <-time.After(20 * time.Second):
+		case <-time.After(5 * time.Minute):
 			o.Fail("c10-pool-get-hang", map[string]any{"case": idx, "events": strings.Join(evs, ",")})
 			o.Op("c10 pool "+strings.Join(evs, ","), "hang")
-			return
+			return false
 		}
 	}
 	_ = blocked
 	outs = append(outs, "pool="+viewStr(pool.VerifSnapshot()))
 	o.Op("c10 pool "+strings.Join(evs, ","), strings.Join(outs, ";"))
 	o.Count("pool_ops")
+	return true
 }
 
 // leafOp: bit / setBit / xorBitvec / expand / expandClear.
